@@ -513,6 +513,48 @@ fn judge_image(out: &mut CaseOut, base: &Base, image: &Image, damaged: &PathBuf,
             }
         }
     }
+    // Damage that the reads above ran into must also stop a compaction from "cleaning it up":
+    // compact the whole range over the damaged table and read everything again. The compaction
+    // may fail (and put the database into its error state); what it must not do is succeed by
+    // leaving out what it could not read and then delete the damaged input.
+    if file_class == PathClass::Table && any_read_error && watch::bg_panics().is_empty() {
+        sess.compact(None, None);
+        sess.wait_quiescent(std::time::Duration::from_secs(10));
+        let mut after = Map::new();
+        let mut complete = true;
+        for k in &base.universe {
+            match sess.get(k) {
+                Err(_) => complete = false,
+                Ok(got) => {
+                    if got.as_ref() != base.truth.get(k) {
+                        let kind = match (&got, base.truth.get(k)) {
+                            (None, Some(_)) => "committed-key-reported-missing",
+                            (Some(_), None) => "deleted-key-resurrected",
+                            _ => "stale-value-served",
+                        };
+                        out.violate(
+                            format!("C15/wrong-data-served/get-after-compaction/{kind}/{sig_loc}"),
+                            json!({"ctx": ctx, "key": show(k), "got": got.as_ref().map(|v| show(v)), "true_value": base.truth.get(k).map(|v| show(v)),
+                                "damaged_file_still_there": sess.fs.image().files.contains_key(damaged), "sticky_error": sess.bad_state()}),
+                        );
+                        break;
+                    }
+                    if let Some(v) = got {
+                        after.insert(k.clone(), v);
+                    }
+                }
+            }
+        }
+        if let Ok(entries) = sess.scan(None) {
+            let scanned: Map = entries.into_iter().collect();
+            if scanned != base.truth {
+                out.violate(format!("C15/wrong-data-served/scan-after-compaction/{sig_loc}"), json!({"ctx": ctx, "scan_returned": scanned.len(), "true_entries": base.truth.len(),
+                    "damaged_file_still_there": sess.fs.image().files.contains_key(damaged), "sticky_error": sess.bad_state()}));
+            }
+        }
+        let _ = (complete, after);
+        out.add("compactions_over_damaged_tables", 1);
+    }
     let outcome = if any_read_error {
         "read-error"
     } else if wal_damage && state != base.truth {
